@@ -92,7 +92,7 @@ func zTwin(steps []zStep) []zStep {
 }
 
 func genC06(t *rapid.T) c06Case {
-	c := c06Case{Variant: rapid.IntRange(0, 5).Draw(t, "variant")}
+	c := c06Case{Variant: rapid.IntRange(0, 7).Draw(t, "variant")}
 	c.Base = []string{"var", "dot", "call"}[rapid.IntRange(0, 2).Draw(t, "base")]
 	root := zooRoot(c.Variant)
 	c.Steps = genZPath(t, root, 4, 5)
@@ -147,6 +147,10 @@ func zRun(c c06Case, tpl string, want reflect.Value) jetrun.Outcome {
 	s, _ := jetrun.NewSet(map[string]string{"/t.jet": tpl})
 	vars := jet.VarMap{}
 	vars.Set("root", root)
+	vars.Set("nokeys", map[string]int{})
+	for k, v := range zIfaceKeys {
+		vars.Set(k, v)
+	}
 	vars.Set("getroot", func() interface{} { return root })
 	vars.SetFunc("chk", func(a jet.Arguments) reflect.Value {
 		return reflect.ValueOf(zSame(a.Get(0), want))
@@ -224,7 +228,7 @@ func judgeC06(c c06Case) (v core.Verdict) {
 
 func TestC06(t *testing.T) {
 	core.Run(t, "C06",
-		"access paths (1-4 steps) generated against the shape of a zoo value (6 variants: pointer/value root, nil pointers-maps-interfaces, typed nil, reached through map and interface slice, **T): exported / promoted (value- and pointer-embedded) / shadowed fields, map entries by name and by int or named-string key, slice/array/string elements, slices, value and pointer methods, each named step spelt .name or [\"name\"], bases variable / '.' / call result; optionally ending in an invalid step (unexported or missing field, wrong-kind or out-of-range index, bad slice bounds, nil dereference, nil embedded pointer); oracle = direct reflect resolver: identical value (pointer identity / DeepEqual), other spelling agrees, scalar rendering, invalid => error not panic, absent key => nil; non-trivial = >=2 steps crossing a pointer or interface, or an invalid step at depth>=2",
+		"access paths (1-4 steps) generated against the shape of a zoo value (8 variants: pointer/value root, pointer to an interface variable, nil pointers-maps-interfaces, typed nil, reached through map and interface slice, **T): exported / promoted (value- and pointer-embedded) / shadowed fields, map entries by name and by int or named-string key, slice/array/string elements, slices, value and pointer methods, each named step spelt .name or [\"name\"], bases variable / '.' / call result; optionally ending in an invalid step (unexported or missing field, wrong-kind or out-of-range index, bad slice bounds, nil dereference, nil embedded pointer); oracle = direct reflect resolver: identical value (pointer identity / DeepEqual), other spelling agrees, scalar rendering, invalid => error not panic, absent key => nil; non-trivial = >=2 steps crossing a pointer or interface, or an invalid step at depth>=2",
 		genC06, judgeC06)
 }
 
